@@ -84,6 +84,19 @@ def gen_cases(tier, seed):
     for base in ["next week friday 5pm", "tomorrow at 5pm", "morgen um 8 uhr", "friday 13th 9am", "heute abend 20 uhr", "monday morning 9-5"]:
         toks = base.split(" ")
         cases.append({"t": base, "ts": "2021-03-03T12:00:00", "also": [" ".join(p) for p in itertools.permutations(toks)][1:]})
+    # two expressions with ONE unmatched, non-blank character between them (characters the normalisation leaves in place):
+    # such a gap separates candidate sequences, so nothing may be derived across it
+    gap_chars = list("!?\"*&+=|~^$%_<>\\'`") + ["!?", "..", "xx", "§"]
+    pairs = [("tomorrow", "5pm"), ("friday", "5pm"), ("May 5th", "8:00"), ("monday", "14:30"), ("morgen", "8 uhr"), ("9", "5"),
+             ("5.3.", "2021"), ("3 days", "tomorrow"), ("8:00", "10:00")]
+    shapes = ("%s%s%s", "%s %s %s", "%s%s %s", "%s %s%s")
+    k = 0
+    for gi, g in enumerate(gap_chars):
+        for pi, (a, b) in enumerate(pairs):
+            for si, f in enumerate(shapes):
+                k += 1
+                if tier == "thorough" or (gi + pi + si) % 9 == seed % 9 or (gi < 2 and pi < 4 and si < 2):
+                    extra.append({"t": f % (a, g, b), "ts": "2021-03-10T12:43:30"})
     return cases + extra
 
 
